@@ -519,7 +519,19 @@ class Runner:
                         d = m.group(1)
                         s = self.step_of_path(d)
                         if s is None:
-                            raise
+                            # the script names something that is not a job directory (an iteration directory, the output
+                            # directory ...): the operator does what it says; every job directory underneath is deleted
+                            # with it and judged like any other deletion (a completed step must never be deleted)
+                            dd = os.path.abspath(d)
+                            if not (dd == self.out or dd.startswith(self.out + os.sep)) or not os.path.isdir(dd):
+                                raise
+                            for root, dirs, _files in os.walk(dd):
+                                for x in dirs:
+                                    self.note_delete(os.path.join(root, x), "operator")
+                            shutil.rmtree(dd)
+                            mi = re.fullmatch(re.escape(self.out) + r"/iter_(-?\d+)", dd)
+                            self.emit([0, 3, int(mi.group(1)) if mi else -1, -1])
+                            continue
                         self.note_delete(d, "operator")
                         shutil.rmtree(d)
                         self.emit([0, 1 if "invalid structure" in msg else 2, s[0], s[1]])
